@@ -8,10 +8,12 @@ def run(prog, rep, tier):
                   "against DW_AT_specification/DW_AT_abstract_origin (attribute_producer::next, find_attribute) consults it, so `attribute` and "
                   "`@AT_x`/`?AT_x` integrate the same attribute set; V2: for TAG/AT/FORM/OP the sugar predicates, their constant-comparing "
                   "predicate classes, the named constants and every label/form producer that builds a constant from the family's libdw source use "
-                  "one `code` parameter and one domain function.")
+                  "one `code` parameter and one domain function; M1: in import_partial_units every path from the resolved-import edge "
+                  "(dwarf_formref_die succeeded) reaches the push of the imported unit's children onto the traversal stack before returning.")
     rep.not_decided = ("in-place inlining of imported units and its order, attribute order, and `@AT_x` = `attribute ?AT_x cooked value` on "
                        "multi-hop specification/abstract_origin chains (find_attribute prefers specification, attribute_producer visits the "
                        "last-scheduled reference first: needs a crafted input, not a structural rule).")
     apply(rep, "G1", "single integration predicate", r_dw.g1(prog), 3)
     apply(rep, "V2", "family agreement of code and domain", r_dw.v2(prog), 14)
+    apply(rep, "M1", "a resolved DW_TAG_imported_unit is always replaced by the unit's children", r_dw.m1(prog), 1)
     maybe_mutants("C06", rep, tier)
